@@ -2,10 +2,15 @@ package faultrig
 
 import (
 	"crypto/tls"
+	"crypto/x509"
 	"fmt"
+	"io"
 	"net"
+	"net/http"
 	"strings"
 	"time"
+
+	"golang.org/x/net/http2"
 )
 
 // The leaves of the exchange path tree (G12.Exchange.run) and how each is
@@ -837,6 +842,75 @@ func ExchangeCases(tier string, seed uint64) []ExCase {
 		co2 := e.Do(tc, "GET /inner HTTP/1.1\r\nHost: "+o.Addr+"\r\n\r\n", false, &ex2)
 		_ = co2
 		e.O.Exs = []Ex{ex1, ex2}
+	})
+	// h2 hand-off: the client negotiates h2 inside the intercepted TLS session, martian relays frames to an h2 origin
+	add("mitm-h2-inner-get", "mitm-h2", func(e *Env) {
+		cert, leaf, err := SelfSigned()
+		if err != nil {
+			e.Failf("cert: %v", err)
+			return
+		}
+		pool := x509.NewCertPool()
+		pool.AddCert(leaf)
+		srv := &http.Server{Handler: http.HandlerFunc(func(w http.ResponseWriter, r *http.Request) {
+			w.Header().Set("X-Proto", r.Proto)
+			w.WriteHeader(200)
+			w.Write([]byte("h2-secret"))
+		})}
+		http2.ConfigureServer(srv, nil)
+		ln, err := tls.Listen("tcp", "127.0.0.1:0", &tls.Config{Certificates: []tls.Certificate{cert}, NextProtos: []string{"h2"}, MinVersion: tls.VersionTLS12})
+		if err != nil {
+			e.Failf("origin: %v", err)
+			return
+		}
+		go srv.Serve(ln)
+		defer srv.Close()
+		origin := ln.Addr().String()
+		e.Start(func(op *Options) { op.MITM = true; op.InsecureUpstream = true; op.MITMH2Roots = pool })
+		c := e.Client()
+		ex1 := Ex{Val: Val{Connect: true, Mitm: true, After: 4}, Method: "CONNECT"}
+		co := e.Do(c, connectReq(origin), true, &ex1)
+		e.O.Exs = []Ex{ex1}
+		if co.P.Verdict != VComplete || co.P.Status != 200 {
+			e.Failf("mitm CONNECT not accepted")
+			return
+		}
+		tc := tls.Client(c, &tls.Config{InsecureSkipVerify: true, ServerName: "127.0.0.1", NextProtos: []string{"h2"}}) //nolint:gosec // test rig
+		tc.SetDeadline(time.Now().Add(5 * time.Second))
+		if err := tc.Handshake(); err != nil {
+			e.Failf("mitm handshake: %v", err)
+			return
+		}
+		tc.SetDeadline(time.Time{})
+		if p := tc.ConnectionState().NegotiatedProtocol; p != "h2" {
+			e.Failf("h2 not negotiated with the proxy: %q", p)
+			return
+		}
+		cc, err := (&http2.Transport{}).NewClientConn(tc)
+		if err != nil {
+			e.Failf("h2 client: %v", err)
+			return
+		}
+		for i := 0; i < 3; i++ {
+			req, _ := http.NewRequest("GET", "https://"+origin+"/inner", nil)
+			res, err := cc.RoundTrip(req)
+			if err != nil {
+				e.Failf("h2 round trip through the proxy: %v", err)
+				return
+			}
+			b, _ := io.ReadAll(res.Body)
+			res.Body.Close()
+			if res.StatusCode != 200 || string(b) != "h2-secret" || res.Header.Get("X-Proto") != "HTTP/2.0" {
+				e.Failf("h2 reply through the proxy: %d %q %q", res.StatusCode, b, res.Header.Get("X-Proto"))
+			}
+		}
+		// requests inside the h2 session are relayed frame by frame: no ProxyTrace event for them
+		time.Sleep(20 * time.Millisecond)
+		if n := len(e.Rig.Events()); n != 2 {
+			e.Failf("expected the read and the completion of the CONNECT only, have %d events", n)
+		}
+		cc.Close()
+		tc.Close() // the client ends the session; the proxy's next readRequest on the connection fails
 	})
 	add("mitm-client-closes-after-200", "mitm", func(e *Env) {
 		e.Start(func(op *Options) { op.MITM = true; op.InsecureUpstream = true })
